@@ -190,3 +190,18 @@ Theorem C19_number_classification_by_value :
   (forall n, same_number n (sj_num_of n)) /\ (forall n s, same_number n s -> s = sj_num_of n).
 Proof. split; [exact sj_num_of_same_number|exact same_number_unique]. Qed.
 Print Assumptions C19_number_classification_by_value.
+
+(* ---- the other From impls of from.rs (model ValueApi.v, all statements in Props/ValueApi.v): an integer primitive lands in the
+   variant of its signedness and is read back by as_i64 / as_u64; what its encoding decodes to is the same number *)
+From JB Require ValueApi ValueApiProofs.
+Theorem C19_from_integer_primitives :
+  (forall z, ValueApi.value_as_i64 (ValueApi.from_i64 z) = Some z) /\
+  (forall n, ValueApi.value_as_u64 (ValueApi.from_u64 n) = Some n) /\
+  (forall z, (- two63 <= z < two63)%Z ->
+     Dispatch.from_slice (Codec.to_vec (ValueApi.from_i64 z)) = Ok (if (z =? 0)%Z then ValueApi.from_u64 0 else ValueApi.from_i64 z)) /\
+  (forall n, n < two64 -> Dispatch.from_slice (Codec.to_vec (ValueApi.from_u64 n)) = Ok (ValueApi.from_u64 n)).
+Proof.
+  split; [intros z; exact (proj1 (ValueApiProofs.from_i64_views z))|]. split; [intros n; exact (proj1 (ValueApiProofs.from_u64_views n))|].
+  split; [exact ValueApiProofs.from_i64_roundtrip|exact ValueApiProofs.from_u64_roundtrip].
+Qed.
+Print Assumptions C19_from_integer_primitives.
